@@ -122,10 +122,19 @@ func c18RunBase(ops [][]string) []string {
 			switch op[0] {
 			case "r":
 				p, _ := strconv.ParseUint(op[1], 10, 64)
+				if _, ok := d.Peers[c18PeerName(p)]; ok {
+					vu.Stat("base_register_twice")
+				}
+				if d.Terminated {
+					vu.Stat("base_register_after_terminate")
+				}
 				_ = d.RegisterPeer(c18PeerName(p))
 			case "u":
 				p, _ := strconv.ParseUint(op[1], 10, 64)
 				choice, _ = strconv.Atoi(op[2])
+				if _, ok := d.Peers[c18PeerName(p)]; !ok {
+					vu.Stat("base_unregister_unknown")
+				}
 				if sess != nil && *sess == c18PeerName(p) {
 					vu.Stat("base_unreg_session_peer")
 				}
@@ -133,6 +142,9 @@ func c18RunBase(ops [][]string) []string {
 			case "t":
 				shouldTerm = op[1] == "1"
 				choice, _ = strconv.Atoi(op[2])
+				if len(d.Peers) == 0 && sess == nil && !d.Terminated {
+					vu.Stat("base_tick_no_candidates")
+				}
 				d.Mu.Lock()
 				d.Routine()
 				d.Mu.Unlock()
@@ -172,8 +184,8 @@ func c18RunPeer(header []string, ops [][]string) []string {
 	var wg sync.WaitGroup
 	d := basepeerleecher.New(&wg, basepeerleecher.EpochDownloaderConfig{
 		RecheckInterval:        time.Hour,
-		DefaultChunkItemsNum:   7,
-		DefaultChunkItemsSize:  11,
+		DefaultChunkItemsNum:   c18ChunkNum(par),
+		DefaultChunkItemsSize:  c18ChunkSize(par),
 		ParallelChunksDownload: par,
 	}, basepeerleecher.EpochDownloaderCallbacks{
 		Done: func() bool {
@@ -240,12 +252,24 @@ func c18RunPeer(header []string, ops [][]string) []string {
 	return append(obs, "E")
 }
 
+// the chunk-request parameters depend on the parallelism so that both 32-bit and 64-bit values
+// travel through RequestChunks
+func c18ChunkNum(par int) uint32  { return uint32(7 + par) }
+func c18ChunkSize(par int) uint64 { return 11 + uint64(par)<<33 }
+
 type c18Chunk struct {
 	op int
 	id uint64
 }
 
 func c18RunTickerOnce(header []string, ops [][]string) []string {
+	interval := 500 * time.Microsecond
+	for _, op := range ops {
+		if len(op) == 2 && op[0] == "i" {
+			us, _ := strconv.Atoi(op[1])
+			interval = time.Duration(us) * time.Microsecond
+		}
+	}
 	par, _ := strconv.Atoi(header[1])
 	nruns, _ := strconv.Atoi(header[2])
 	type ans struct {
@@ -268,9 +292,9 @@ func c18RunTickerOnce(header []string, ops [][]string) []string {
 	}
 	var wg sync.WaitGroup
 	d := basepeerleecher.New(&wg, basepeerleecher.EpochDownloaderConfig{
-		RecheckInterval:        500 * time.Microsecond,
-		DefaultChunkItemsNum:   7,
-		DefaultChunkItemsSize:  11,
+		RecheckInterval:        interval,
+		DefaultChunkItemsNum:   c18ChunkNum(par),
+		DefaultChunkItemsSize:  c18ChunkSize(par),
 		ParallelChunksDownload: par,
 	}, basepeerleecher.EpochDownloaderCallbacks{
 		Done: func() bool {
@@ -323,12 +347,21 @@ func c18RunTickerOnce(header []string, ops [][]string) []string {
 		case "w":
 			time.Sleep(1200 * time.Microsecond)
 			vu.Stat("ticker_op_w")
+		case "i":
+			vu.Stat("ticker_interval_" + op[1] + "us")
 		case "x":
 			d.Terminate()
 			mu.Lock()
 			obs = append(obs, "X")
 			mu.Unlock()
 			vu.Stat("ticker_op_x")
+		case "k": // second use: Stop() then Start() again - the new loop leaves at once through quit
+			d.Stop()
+			mu.Lock()
+			obs = append(obs, "X")
+			mu.Unlock()
+			d.Start()
+			vu.Stat("ticker_stop_then_start")
 		default:
 			panic("bad op " + op[0])
 		}
@@ -438,7 +471,14 @@ func c18RunLoop(header []string, ops [][]string) []string {
 		return vu.U64(c18PeerNum(*sess))
 	}
 	var d *basestreamleecher.BaseLeecher
-	d = basestreamleecher.New(300*time.Microsecond, basestreamleecher.Callbacks{
+	interval := 300 * time.Microsecond
+	for _, op := range ops {
+		if len(op) == 2 && op[0] == "i" {
+			us, _ := strconv.Atoi(op[1])
+			interval = time.Duration(us) * time.Microsecond
+		}
+	}
+	d = basestreamleecher.New(interval, basestreamleecher.Callbacks{
 		SelectSessionPeerCandidates: func() []string {
 			nums := make([]uint64, 0, len(d.Peers))
 			for p := range d.Peers {
@@ -597,6 +637,13 @@ func c18RunLoop(header []string, ops [][]string) []string {
 			<-done
 		case "w":
 			time.Sleep(700 * time.Microsecond)
+		case "i":
+			vu.Stat("loop_interval_" + op[1] + "us")
+		case "s": // second use: Start() again after Terminate() - the new loop leaves through Quit
+			if terminated {
+				d.Start()
+				vu.Stat("loop_start_after_terminate")
+			}
 		default:
 			panic("bad op " + op[0])
 		}
@@ -613,6 +660,9 @@ func c18RunLoop(header []string, ops [][]string) []string {
 
 func c18GenLoop(r *rand.Rand, emit func(...string)) {
 	in := []string{"L", strconv.FormatUint(r.Uint64()&r.Uint64(), 10), strconv.FormatUint(r.Uint64(), 10)}
+	if r.Intn(8) == 0 {
+		in = append(in, ";", "i", "40") // a very short recheck interval
+	}
 	npeers := 1 + r.Intn(3)
 	nops := 2 + r.Intn(9)
 	for i := 0; i < nops; i++ {
@@ -626,6 +676,9 @@ func c18GenLoop(r *rand.Rand, emit func(...string)) {
 			in = append(in, "w")
 		case x < 18:
 			in = append(in, "x")
+			if r.Intn(2) == 0 {
+				in = append(in, ";", "s", ";", "w")
+			}
 		case x < 19:
 			in = append(in, "ub", strconv.Itoa(1+r.Intn(npeers)))
 		default:
@@ -707,6 +760,11 @@ func c18GenPeer(r *rand.Rand, emit func(...string)) {
 	par := r.Intn(5)
 	if r.Intn(10) == 0 {
 		par = 0
+		vu.Stat("peer_parallel_0")
+	}
+	if r.Intn(40) == 0 {
+		par = 40 // a wide window (the size passed to RequestChunks exceeds 32 bits for every par >= 1)
+		vu.Stat("peer_parallel_40")
 	}
 	nops := 1 + r.Intn(16)
 	nruns := nops
@@ -734,14 +792,24 @@ func c18GenPeer(r *rand.Rand, emit func(...string)) {
 		}
 		in = append(in, strconv.Itoa(done), strconv.Itoa(susp), strconv.FormatUint(mask, 10))
 	}
+	seenID := map[int]bool{}
 	for i := 0; i < nops; i++ {
-		in = append(in, ";", "c", strconv.Itoa(r.Intn(8)))
+		id := r.Intn(8)
+		if seenID[id] {
+			vu.Stat("peer_chunk_id_notified_twice")
+		}
+		seenID[id] = true
+		in = append(in, ";", "c", strconv.Itoa(id))
 	}
 	emit(in...)
 }
 
 func c18GenTicker(r *rand.Rand, emit func(...string)) {
 	par := 1 + r.Intn(4)
+	if r.Intn(12) == 0 {
+		par = 0 // no chunk is ever accepted or requested
+		vu.Stat("ticker_parallel_0")
+	}
 	nruns := 64
 	// burst: the peer over-delivers while the application processes nothing, so that more than
 	// 2*parallel chunks are unprocessed and notifications are dropped; later the application
@@ -775,7 +843,10 @@ func c18GenTicker(r *rand.Rand, emit func(...string)) {
 		}
 		in = append(in, strconv.Itoa(done), strconv.Itoa(susp), strconv.FormatUint(mask, 10))
 	}
-	nc := 1 + r.Intn(2*par)
+	if r.Intn(8) == 0 {
+		in = append(in, ";", "i", "50") // a very short RecheckInterval
+	}
+	nc := 1 + r.Intn(2*par+1)
 	if burst {
 		nc = 2*par + 1 + r.Intn(2*par+3)
 	}
@@ -789,7 +860,14 @@ func c18GenTicker(r *rand.Rand, emit func(...string)) {
 			in = append(in, ";", "w")
 		}
 		if i == xat {
-			in = append(in, ";", "x", ";", "w")
+			switch r.Intn(4) {
+			case 0: // Terminate twice
+				in = append(in, ";", "x", ";", "x", ";", "w")
+			case 1: // Stop, then Start again
+				in = append(in, ";", "k", ";", "w")
+			default:
+				in = append(in, ";", "x", ";", "w")
+			}
 		}
 	}
 	if burst {
